@@ -10,6 +10,7 @@
      Export       the UPDATEs it sent for routes it originates (families, path-id encoding,
                   AS_PATH octet width / AS4_PATH, LOCAL_PREF, message sizes)
      Timers       KEEPALIVE instants and the hold-timer NOTIFICATION while the neighbour is silent
+     Renegotiated a second session of the same speaker with a reduced OPEN (field open2)
      RecvPlain    an UPDATE encoded the way the neighbour has to -> Adj-RIB-In
      RecvAddPath  an UPDATE whose NLRI carries a path identifier (per negotiated family)
      RecvBig      an UPDATE longer than 4096 octets
@@ -39,17 +40,19 @@ Follows(e) ==
     [] e = "Negotiated"  -> cur.ev = "Handshake" /\ cur.obs.out = "established"
     [] e = "Export"      -> cur.ev = "Negotiated"
     [] e = "Timers"      -> cur.ev = "Export"
+    [] e = "Renegotiated" -> cur.ev = "Timers"
     [] e \in {"RecvPlain", "RecvAddPath", "RecvBig", "RecvBigKa"} ->
-         cur.ev \in {"Timers", "RecvPlain", "RecvAddPath", "RecvBig"}
+         cur.ev \in {"Renegotiated", "RecvPlain", "RecvAddPath", "RecvBig"}
 
 TStep(e) == /\ IsEvent(e) /\ Follows(e)
-            /\ cur' = [ev |-> e, obs |-> Trace[l].obs]
+            /\ cur' = IF e = "Renegotiated" THEN [ev |-> e, obs |-> Trace[l].obs, open2 |-> Trace[l].open2]
+                      ELSE [ev |-> e, obs |-> Trace[l].obs]
             /\ neg' = IF e = "Negotiated" THEN [seen |-> TRUE, obs |-> Trace[l].obs] ELSE neg
             /\ e = "Negotiated" => NoteIf(TRUE, <<cfg, open>>)
             /\ UNCHANGED <<cfg, open>>
 
 TraceNext == \/ TReset
-             \/ \E e \in {"OpenSent", "Handshake", "Negotiated", "Export", "Timers",
+             \/ \E e \in {"OpenSent", "Handshake", "Negotiated", "Export", "Timers", "Renegotiated",
                           "RecvPlain", "RecvAddPath", "RecvBig", "RecvBigKa"} : TStep(e)
 TraceSpec == TraceInit /\ [][TraceNext]_tvars
 
@@ -175,6 +178,19 @@ C08_ProbesAgree ==
   /\ Is("RecvBig") => IF neg.obs.ext
                       THEN (Entry(neg.obs.fams, Obs.fam).recv = (Obs.id # 0)) => Installed(Obs, Obs.id)
                       ELSE \A e \in Range(Obs.adjin) : e.pfx # Obs.pfx
+
+(* a later session of the same speaker is negotiated from ITS OPEN alone: nothing of the
+   previous negotiation survives (cur.open2 has no capability but, possibly, the 4-octet AS) *)
+C08_Renegotiated == Is("Renegotiated") =>
+  LET o2 == cur.open2  n == Obs.neg IN
+  IF ~Accepts(cfg, o2) THEN Obs.out = "notif" /\ <<Obs.code, Obs.sub>> \in RefuseReasons(cfg, o2)
+  ELSE /\ Obs.out = "established"
+       /\ n.hold = Hold(cfg, o2)
+       /\ (Hold(cfg, o2) > 0 => Max(1, n.ka) \in KeepaliveAllowed(cfg, o2))
+       /\ FamSet(n.fams) = Families(cfg, o2) /\ n.otherfams = 0
+       /\ \A x \in Range(n.fams) : (x.send => ApSendUpper(cfg, o2, x.fam)) /\ (x.recv => ApRecvUpper(cfg, o2, x.fam))
+       /\ n.as4 = FourOctet(cfg, o2) /\ n.ext = ExtMsg(cfg, o2)
+       /\ n.ptype = PeerType(cfg, o2) /\ n.peeras = RealAS(o2)
 
 ---------------------------------------------------------------------------
 (* KNOWN FINDING KF-C08-as2-overflow: towards a neighbour without the 4-octet capability the
